@@ -337,7 +337,8 @@ def run_tlc_model(pid, module, cfg, timeout=900, workers=NCPU, extra=None):
     res = {"module": module, "cfg": cfg, "rc": r.returncode, "wall_s": round(time.time() - t0, 1),
            "generated": int(m.group(1)) if m else 0, "distinct": int(m.group(2)) if m else 0,
            "violated": re.findall(r"Invariant (\w+) is violated", out) + re.findall(r"Action property (\w+) is violated", out)
-                       + (["<temporal>"] if "Temporal properties were violated" in out else []),
+                       + (["<temporal>"] if "Temporal properties were violated" in out else [])
+                       + (["<deadlock>"] if "Deadlock reached" in out else []),
            "finished": "Model checking completed" in out or "Finished in" in out,
            "out": os.path.join(wd, "out.txt")}
     shutil.rmtree(os.path.join(wd, "meta"), ignore_errors=True)
